@@ -35,9 +35,16 @@ ASSUMPTIONS = [
     "_instance_index is compared only where it does not depend on which id() CPython recycles ('?' otherwise)",
     "sizes are read from the structures the property names (_instance_index, _class_to_wrapped_instances, "
     "_relation_index, _id_expression_map_, RWXNode._graph); a structure that no longer exists counts as empty",
+    "role takers: the inference of Chair.head_of through the role taker is NOT in the Lean model; loops with roles "
+    "are query-free, so what they record cannot influence the observation (nothing is pinned: everything dies, "
+    "C20_no_pins_no_survivors) - the model side runs them with the role assertions left out",
+    "no transitive assertion is generated while a dropped instance may be unswept (that raises: finding F-C14-2, "
+    "C14's subject); the window between a death and the next sweep is otherwise kept open",
 ]
 RULE = ("fixed families (never queried / queried without domain / with explicit domain / held query object / related "
-        "instances / mid-body drops) x 4-5 iterations + random loop bodies of 2-9 operations; non-trivial = the body "
+        "instances / mid-body drops / temporaries created and discarded back to back / Role[Emp] instances whose "
+        "head_of infers through the role taker, query-free) x 4-5 iterations + random loop bodies of 2-9 operations "
+        "(drops without a sweep, churn) + random query-free role bodies; non-trivial = the body "
         "creates an instance and relates or queries it; distinct by case text")
 
 
@@ -68,6 +75,24 @@ def _families():
             out.append((base + rel + [["query", 2]], "related+query"))
             out.append((base + rel + [["query", 1]], "related+query"))
             out.append((base + rel + [["drop", 0], ["sweep"]], "related+mid-drop"))
+        # temporaries created and discarded back to back: the id of a dead instance goes to the next one before
+        # any sweep; one instance is kept until the end of the iteration
+        for c in (1, 2, 7):
+            for k in (3, 8):
+                out.append(([["churn", 0, k, c], ["new", 50, c]], "churn"))
+                out.append(([["new", 50, c], ["churn", 0, k, c], ["drop", 50], ["churn", 20, k, c], ["new", 51, c]], "churn"))
+                out.append(([["churn", 0, k, c], ["new", 50, c], ["query", c]], "churn+query"))
+        out.append(([["new", 0, 2], ["new", 1, 1], ["set", 0, 0, 1], ["drop", 0], ["drop", 1], ["churn", 10, 6, 2],
+                     ["new", 20, 2], ["new", 21, 1], ["set", 0, 20, 21]], "churn+related"))
+        # roles: chair.head_of = org infers org.members ∋ chair, whose inverse lives on the chair's role taker
+        base = [["new", 0, 2], ["new", 1, 1], ["newrole", 2, 0]]
+        out.append((base, "role"))
+        out.append((base + [["head", 2, 1]], "role"))
+        out.append((base + [["head", 2, 1], ["set", 0, 0, 1]], "role"))
+        out.append((base + [["set", 1, 0, 1], ["head", 2, 1]], "role"))
+        out.append((base + [["head", 2, 1], ["drop", 2], ["drop", 0]], "role"))
+        out.append((base + [["new", 3, 1], ["head", 2, 1], ["head", 2, 3]], "role"))
+        out.append((base + [["new", 3, 2], ["newrole", 4, 3], ["head", 2, 1], ["head", 4, 1]], "role"))
         yield from ((n, ops, tag) for ops, tag in out)
         out = []
 
@@ -80,20 +105,53 @@ def generate(rng, tier, n):
         g = _sg.Gen(rng, classes=rng.choice([(1, 2), (1, 2, 3), (1, 1, 2, 7)]))
         ops = [g.new() for _ in range(rng.randint(1, 3))]
         ops += g.history(rng.randint(1, 7), w_new=1.0, w_drop=0.7, w_rel=2.5, w_sweep=0.3, w_clear=0.0, w_query=2.0)
-        # a dead, unswept instance met by the transitive inference raises (finding F-C14-2, C14's subject): inside a
-        # loop body every drop is followed by a sweep
-        swept = []
+        if rng.random() < 0.35:
+            ops.insert(rng.randint(0, len(ops)), g.churn())
+        # A dead, unswept instance met by the transitive inference raises (finding F-C14-2, C14's subject). Loop
+        # bodies keep the window between a death and the next sweep open (ids and node indices are recycled in it)
+        # and stay clear of F-C14-2 by construction: no transitive assertion while a dropped instance may be unswept.
+        kept, dirty = [], False
         for op in ops:
-            swept.append(op)
             if op[0] == "drop":
-                swept.append(["sweep"])
-        ops = swept
+                dirty = True
+            elif op[0] == "sweep" or op[0] in ("query", "queryd", "evalq"):
+                dirty = False
+            elif op[0] == "set" and int(op[1]) == 3 and dirty:
+                continue
+            kept.append(op)
+        ops = kept
         tags = ["random"]
         if any(op[0] in ("query", "queryd", "mkq", "mkqd") for op in ops):
             tags.append("with-query")
         if any(op[0] in ("set", "rel") for op in ops):
             tags.append("with-relation")
+        if any(op[0] == "churn" for op in ops):
+            tags.append("churn")
         cases.append(_case(rng.choice([4, 5]), ops, tags, "random"))
+    # roles (Role[Emp] with the inverse of head_of living on the role taker), query-free: create / relate / discard
+    for _ in range(n // 5):
+        ops, nxt = [], 0
+        emps, orgs, chairs = [], [], []
+        for _k in range(rng.randint(1, 2)):
+            ops.append(["new", nxt, 2]); emps.append(nxt); nxt += 1
+        for _k in range(rng.randint(1, 2)):
+            ops.append(["new", nxt, 1]); orgs.append(nxt); nxt += 1
+        for _k in range(rng.randint(1, 2)):
+            ops.append(["newrole", nxt, rng.choice(emps)]); chairs.append(nxt); nxt += 1
+        body = []
+        for _k in range(rng.randint(1, 4)):
+            r = rng.random()
+            if r < 0.5:
+                body.append(["head", rng.choice(chairs), rng.choice(orgs)])
+            elif r < 0.7:
+                body.append(["set", rng.choice([0, 1]), rng.choice(emps), rng.choice(orgs)])
+            elif r < 0.8:
+                body.append(["set", 2, rng.choice(orgs), rng.choice(emps)])
+            elif r < 0.9:
+                body.append(["drop", rng.choice(emps + orgs + chairs)])
+            else:
+                body.append(["sweep"])
+        cases.append(_case(rng.choice([4, 5]), ops + body, ("random", "role"), "random"))
     return cases
 
 
@@ -112,7 +170,8 @@ def compare(a: str, b: str) -> bool:
 
 
 def nontrivial(case: Case, spec: str) -> bool:
-    return "(new" in case.line and any(k in case.line for k in ("(set", "(rel", "query", "evalq"))
+    return ("(new" in case.line or "(churn" in case.line) and any(
+        k in case.line for k in ("(set", "(rel", "query", "evalq", "(head", "(churn"))
 
 
 def shrink(case: Case):
